@@ -119,6 +119,10 @@ var opInfo = map[string]struct {
 	"Text": {1, false, false}, "Append": {1, false, false}, "Format": {1, false, false}, "String": {1, false, false},
 	"GobEncode": {1, false, false}, "MarshalText": {1, false, false}, "MarshalJSON": {1, false, false},
 	"Attrs": {1, false, false},
+	// harness-level fault event, not an API call: the receiver's mantissa buffer is
+	// replaced by a larger one whose spare capacity holds stale (legal) words, as
+	// if the variable had held a longer value before
+	"~dirty": {0, true, true},
 }
 
 // execOp runs op on w. It recovers every panic. inj != nil marks panic values
@@ -222,6 +226,8 @@ func execOp(w *World, op *Op) (res Result) {
 			m[i] = decimal.Word(x % wordBase)
 		}
 		z.SetBitsExp(m, op.I)
+	case "~dirty":
+		decimal.VerifDirty(z, int(op.I), stalePattern(op.M, uint64(op.I)*31+7))
 	case "BitsSelf":
 		m, e := z.BitsExp()
 		z.SetBitsExp(m, int64(e))
